@@ -792,6 +792,11 @@ _dispatch_source_invoke2(dispatch_source_t ds, dispatch_invoke_context_t dic,
 		}
 		// clears ds_registration_handler
 		_dispatch_source_registration_callout(ds, dq, flags);
+		if (unlikely(DISPATCH_QUEUE_IS_SUSPENDED(ds))) {
+			// Source suspended by its registration handler: deliver nothing
+			// before it is resumed
+			return ds->do_targetq;
+		}
 	}
 
 	if (_dispatch_unote_needs_delete(dr)) {
